@@ -9,6 +9,7 @@ package mail
 import (
 	"bytes"
 	"io"
+	netmail "net/mail"
 )
 
 // This file is only compiled with the build tag "verif". It exports thin wrappers around
@@ -109,3 +110,6 @@ func VerifSendErrorDetails(e *SendError) ([]string, int) {
 
 // VerifFormatAddress exposes formatAddress.
 func VerifFormatAddress(name, addr string) string { return formatAddress(name, addr) }
+
+// VerifAddressString exposes addressString.
+func VerifAddressString(a *netmail.Address) string { return addressString(a) }
